@@ -345,6 +345,18 @@ func (f *Frame) holdLock(instr *ssa.Call, cc *ssa.CallCommon, reach string, st *
 	gw := f.ctx.Fresh("bcast_getWaitCh", "Ptr")
 	f.top.noopFuncs[bc] = true
 	f.top.noopFuncs[gw] = true
+	// with a declared `ghost heap bcastCalls ptr int`: calls of this `broadcast` are counted per
+	// owner (the object whose Broadcast field is locked, or the Broadcast itself)
+	if _, ok := ghostHeaps["bcastCalls"]; ok {
+		owner := f.val(cc.Args[0])
+		if fa, isFA := cc.Args[0].(*ssa.FieldAddr); isFA {
+			owner = f.val(fa.X)
+		}
+		if f.top.bcastOwner == nil {
+			f.top.bcastOwner = map[string]string{}
+		}
+		f.top.bcastOwner[bc] = owner
+	}
 	f.inlineCall(fn, []string{bc, gw}, bindings, reach, st)
 	f.lockOp(cc.Args[0], false, reach, st, pos)
 	return true
